@@ -101,7 +101,7 @@ func (c *ctx) partA(fams []*family) map[string]any {
 				nx := &vset{id: f.name + "/Anext", keys: []tmKey{f.key(50)}, powers: []int64{1}}
 				gd := c.genesisDump(f, 1, j.ver, T, fill(0xaa))
 				cnt := 0
-				for _, sigs := range c.sigPatterns(n) {
+				for _, sigs := range c.sigPatterns(n, true) {
 					sp := hdrSpec{ChainID: tmChainID, Ver: j.ver, Height: 2, Vals: T, HdrVals: T, Next: nx, Sigs: sigs, AppHash: fill(0xaa)}
 					raw, hh := f.raw(sp)
 					var before, after tracked
@@ -153,6 +153,6 @@ func (c *ctx) partA(fams []*family) map[string]any {
 	close(ch)
 	wg.Wait()
 	return map[string]any{"power_alphabet": powerAlphabet, "validators": "1..4", "power_vectors_per_family_version": 340,
-		"signature_alphabet": map[string]string{"quick": "{a,c}^n u {c,n}^n u {c,f}^n u {c,d}^n", "thorough": "n<=3: {a,c,n,f,d}^n; n=4: quick u {a,c,n}^4 u {a,c,d}^4 u {a,c,f}^4"}[r.Tier],
+		"signature_alphabet": map[string]string{"quick": "{a,c}^n u {c,n}^n u {c,f}^n u {c,d}^n", "thorough": "{a,c,n,f,d}^n"}[r.Tier],
 		"executions": execs}
 }
